@@ -518,6 +518,8 @@ func (e *Env) trSelector(n *ast.SelectorExpr) TV {
 		if so, ok := ghostSorts[name]; ok {
 			ty := types.Type(tyInt)
 			switch so {
+			case "Bool":
+				ty = tyBool
 			case "(Array Int String)":
 				ty = types.NewMap(tyInt, tyString)
 			case "(Array Int Slice)":
